@@ -8,6 +8,8 @@ CONSTANTS
   Rule = 127
   Seed = FALSE
   Guard = TRUE
+  Tendermint = FALSE
+  ZeroOk = FALSE
   EarliestLow = FALSE
 INIT Init
 NEXT Next
